@@ -85,12 +85,10 @@ func (f *GitFilter) copyToTemp(reader io.Reader, fileSize int64, cb tools.CopyCa
 		return
 	}
 
-	var from io.Reader = bytes.NewReader(by)
-	if fileSize < 0 || int64(len(by)) < fileSize {
-		// If there is still more data to be read from the file, tack on
-		// the original reader and continue the read from there.
-		from = io.MultiReader(from, reader)
-	}
+	// Whatever the reported file size says, tack on the original reader
+	// and continue the read from there: the stream may be longer than the
+	// file currently at that path.
+	from := io.MultiReader(bytes.NewReader(by), reader)
 
 	size, err = tools.CopyWithCallback(writer, from, fileSize, cb)
 
